@@ -99,7 +99,7 @@ func newError(d *definition, cause error, msg string, joined bool, stackSkip int
 		if d.stackDepth > 0 {
 			depth = d.stackDepth
 		}
-		stack = newStack(depth, d.stackSkip+stackSkip, d.stackSourceLines, d.stackSourceDepth)
+		stack = newStack(depth, addSkip(d.stackSkip, stackSkip), d.stackSourceLines, d.stackSourceDepth)
 	}
 	return &definedError{
 		def:    d,
